@@ -29,8 +29,10 @@ func verifSnap(s *keygen.LocalPartySaveData) *verifKeySnap {
 	}
 	addPt := func(p *crypto.ECPoint) {
 		sn.pts = append(sn.pts, p)
-		add(p.X())
-		add(p.Y())
+		for _, c := range []*big.Int{p.X(), p.Y()} {
+			sn.ptrs = append(sn.ptrs, nil)
+			sn.ints = append(sn.ints, c)
+		}
 	}
 	add(s.Xi)
 	add(s.ShareID)
@@ -50,15 +52,17 @@ func verifSameKey(label string, s *keygen.LocalPartySaveData, sn *verifKeySnap) 
 	if len(now.ints) != len(sn.ints) {
 		return
 	}
-	ok := true
+	// order of the integers: Xi, ShareID, Ks..., BigXj coordinates..., EDDSAPub coordinates
 	for i := range now.ints {
-		ok = ok && v.EqInt(now.ints[i], sn.ints[i])
-		ok = ok && now.ptrs[i] == sn.ptrs[i]
+		v.Assert(v.Name(label+"-value", i), v.EqInt(now.ints[i], sn.ints[i]))
+		// (ECPoint.X()/Y() return copies: object identity is checked on the points instead)
+		if sn.ptrs[i] != nil {
+			v.Assert(v.Name(label+"-object", i), now.ptrs[i] == sn.ptrs[i])
+		}
 	}
 	for i := range now.pts {
-		ok = ok && now.pts[i] == sn.pts[i]
+		v.Assert(v.Name(label+"-point-object", i), now.pts[i] == sn.pts[i])
 	}
-	v.Assert(label, ok)
 }
 
 // one signing session of all n parties over the given key data; returns the signatures and
@@ -152,6 +156,7 @@ func VerifHarness_C20_eddsa_two_sessions_n2t1() {
 	sum2 := new(big.Int).Add(r2[0], r2[1])
 	v.Assume("fresh-coins-do-not-collide", !v.CongMod(sum1, sum2, q))
 	v.Assert("different-nonce-R", !v.EqBytes(sig1[0].R, sig2[0].R))
-	v.Assert("different-signature", !v.EqBytes(sig1[0].Signature, sig2[0].Signature))
+	// (Signature[:32] is the little-endian encoding of the same R)
+	_ = sig2[0].Signature
 	v.Reach("end")
 }
